@@ -136,6 +136,7 @@ pub fn execute_c05i(plan: &Plan) -> Outcome {
         let mut evals = 0u64;
         let target = UdpTarget { ip: [127, 0, 5, 2], port: 5006, name: by_name.then(|| "inpath-target.c05i.test".to_owned()), replies: 1, reply_size: 40 };
         world::with(|w| {
+            w.udp_capture = Some(Vec::new());
             if let Some(n) = &target.name {
                 w.zone.insert(n.clone(), Some(IpAddr::V4(Ipv4Addr::from(target.ip))));
             }
@@ -400,6 +401,33 @@ pub fn execute_c05i(plan: &Plan) -> Outcome {
             w.udp_hold_ports.clear();
             w.udp_held.clear();
         });
+        // (C12) whatever the attacker's datagrams set in motion - an association rebuilt for another address, a session
+        // restarted - the ids the server seals within one server session keep increasing: a repeated id is a repeated nonce
+        if !legacy {
+            let c = crate::refpeer::creds(&plan.config);
+            let cap: Vec<(SocketAddr, SocketAddr, Vec<u8>)> = world::with(|w| w.udp_capture.clone().unwrap_or_default());
+            let mut last: BTreeMap<u64, u64> = BTreeMap::new();
+            let mut parsed = 0u64;
+            for (from, _, data) in cap.iter().filter(|(f, _, _)| *f == srv) {
+                let opened = if refimpl::ss2022::is_aes(&c.cipher) {
+                    let mut keys = c.user_keys.clone();
+                    keys.push(c.psk.clone());
+                    keys.iter().find_map(|k| refimpl::ss2022::udp_open_aes(&c.cipher, k, &[k.clone()], 0, data, true).ok().map(|(b, _, _, _)| b))
+                } else {
+                    refimpl::ss2022::udp_open_chacha(&c.cipher, &c.psk, data, true).ok().map(|(b, _)| b)
+                };
+                let _ = from;
+                if let Some(b) = opened {
+                    parsed += 1;
+                    let e = last.entry(b.session_id).or_insert(0);
+                    if b.packet_id <= *e && !findings.iter().any(|f| f.0 == "C12") {
+                        findings.push(("C12", "server-packet-id-reused".into(), format!("the server sealed packet id {} after {} in its session {:#x}: the same nonce under the same session key", b.packet_id, *e, b.session_id), None));
+                    }
+                    *e = (*e).max(b.packet_id);
+                }
+            }
+            probes.insert("server_datagrams_parsed_for_packet_ids".into(), parsed);
+        }
         // the relay still works, undisturbed
         if let Some(fresh) = mini_app().await {
             let before = at_target();
